@@ -172,7 +172,7 @@ impl Scenario for C12 {
         let mut p = Plan::new("C12", "seeded", seed, idx);
         p.set("mode", rng.below(4) as i64);
         p.set("general", rng.below(8) as i64);
-        p.set("via", *rng.pick(&[0i64, 0, 1, 2]));
+        p.set("via", *rng.pick(&[0i64, 0, 1, 2, 2, 3]));
         p.set("version", *rng.pick(&[14i64, 14, 5, 6, 7, 9, 13, 128]));
         if rng.chance(1, 6) && !self.sections.is_empty() {
             let (name, l) = rng.pick(&self.sections);
@@ -192,6 +192,15 @@ impl Scenario for C12 {
                 p.lines.insert(at, format!("!mode {}", *rng.pick(MODE_VALUES)));
             }
             p.faults.push("mode-switch-between-lines".into());
+        }
+        // records of OTHER sections arriving between timing-point lines (sections may repeat and interleave): they are not
+        // timing-point lines and must neither open nor close a same-time group
+        if rng.chance(1, 5) && !p.lines.is_empty() {
+            for _ in 0..1 + rng.below(3) {
+                let at = rng.below(p.lines.len() + 1);
+                p.lines.insert(at, format!("!sec {}", *rng.pick(&["HitObjects 256,192,1000,1,0", "HitObjects garbage", "HitObjects 100,100,2000,2,0,L|200:100,1,100", "Events 2,100,200", "Events 0,0,\"bg.png\",0,0", "Difficulty SliderMultiplier:2", "Difficulty SliderTickRate:4", "Metadata Title:x", "Editor BeatDivisor:4", "Colours Combo1 : 1,2,3", "General StackLeniency: 0.5", "Unknown whatever"])));
+            }
+            p.faults.push("foreign-section-record-between-lines".into());
         }
         // message-style perturbations
         for _ in 0..rng.below(4) {
@@ -240,6 +249,18 @@ impl Scenario for C12 {
             for l in &plan.lines {
                 if let Some(m) = l.strip_prefix("!mode ") {
                     let _ = TimingPoints::parse_general(&mut s, &format!("Mode: {m}"));
+                } else if let Some(r) = l.strip_prefix("!sec ") {
+                    let (sec, rec) = r.split_once(' ').unwrap_or((r, ""));
+                    let _ = match sec {
+                        "HitObjects" => TimingPoints::parse_hit_objects(&mut s, rec),
+                        "Events" => TimingPoints::parse_events(&mut s, rec),
+                        "Difficulty" => TimingPoints::parse_difficulty(&mut s, rec),
+                        "Metadata" => TimingPoints::parse_metadata(&mut s, rec),
+                        "Editor" => TimingPoints::parse_editor(&mut s, rec),
+                        "Colours" => TimingPoints::parse_colors(&mut s, rec),
+                        "General" => TimingPoints::parse_general(&mut s, rec),
+                        _ => Ok(()),
+                    };
                 } else {
                     let _ = TimingPoints::parse_timing_points(&mut s, l);
                 }
@@ -256,6 +277,9 @@ impl Scenario for C12 {
             for l in &plan.lines {
                 if let Some(m) = l.strip_prefix("!mode ") {
                     text.push_str(&format!("[General]\nMode: {m}\n[TimingPoints]\n"));
+                } else if let Some(r) = l.strip_prefix("!sec ") {
+                    let (sec, rec) = r.split_once(' ').unwrap_or((r, ""));
+                    text.push_str(&format!("[{sec}]\n{rec}\n[TimingPoints]\n"));
                 } else {
                     text.push_str(l);
                     text.push('\n');
@@ -273,13 +297,17 @@ impl Scenario for C12 {
                     _ => None,
                 })
                 .collect();
-            if routed.log.iter().any(|x| x.0 != "TimingPoints" && x.0 != "General") {
+            let foreign = plan.lines.iter().any(|l| l.starts_with("!sec "));
+            if !foreign && routed.log.iter().any(|x| x.0 != "TimingPoints" && x.0 != "General") {
                 // a generated line looked like a section header: outside this scenario
                 return Ok(());
             }
             let cp = if via == 1 {
                 st.inc("via.decode-TimingPoints");
                 rosu_map::from_str::<TimingPoints>(&text).map_err(|e| Violation::new("C12/decode-error", "err", e.to_string()))?.control_points
+            } else if via == 3 {
+                st.inc("via.decode-HitObjects");
+                rosu_map::from_str::<rosu_map::section::hit_objects::HitObjects>(&text).map_err(|e| Violation::new("C12/decode-error", "err", e.to_string()))?.control_points
             } else {
                 st.inc("via.decode-Beatmap");
                 rosu_map::from_str::<Beatmap>(&text).map_err(|e| Violation::new("C12/decode-error", "err", e.to_string()))?.control_points
@@ -304,7 +332,7 @@ impl Scenario for C12 {
             Violation::new(
                 "C12/model-mismatch",
                 what.split(':').next().unwrap_or("lists"),
-                format!("mode {mode}, [General] {general:?}, via {}: {what}\n lines: {lines_seen:?}\n model: {m:?}\n real : {real:?}", ["line API", "decode::<TimingPoints>", "decode::<Beatmap>"][via.clamp(0, 2) as usize]),
+                format!("mode {mode}, [General] {general:?}, via {}: {what}\n lines: {lines_seen:?}\n model: {m:?}\n real : {real:?}", ["line API", "decode::<TimingPoints>", "decode::<Beatmap>", "decode::<HitObjects>"][via.clamp(0, 3) as usize]),
             )
         })
     }
